@@ -932,7 +932,7 @@ class BaseCfgLine(object):
                         #######################################################
                         # Insert a child... do the children have children?
                         #######################################################
-                        _idx = self.linenum + len(self.all_children) + 1
+                        _idx = self.family_endpoint + 1
 
                     elif insertstr_family_indent < self.classify_family_indent(self.text):
                         # inserstr is indented less than this object
